@@ -163,7 +163,13 @@ RECURSIVE Keep(_, _, _)
 Keep(items, res, i) == IF i > Len(items) THEN <<>>
                        ELSE (IF res[i] = Bool(TRUE) THEN <<items[i]>> ELSE <<>>) \o Keep(items, res, i + 1)
 
-RECURSIVE Eval(_, _), EvalSeq(_, _, _), EvalCtx(_, _, _), Doms(_, _, _), InTest(_, _, _), Invoke(_, _, _)
+RECURSIVE Eval(_, _), EvalSeq(_, _, _), EvalCtx(_, _, _), Doms(_, _, _), InTest(_, _, _), Invoke(_, _, _), ForAcc(_, _, _, _, _)
+
+\* the iterations of a `for`, in order; the special name `partial` is bound to the list of the results so far (10.3.2.14)
+ForAcc(body, prod, q, acc, sc) ==
+  IF q > Len(prod) THEN acc
+  ELSE LET v == Eval(body, Push(sc, Ctx(prod[q] \o <<[n |-> "partial", v |-> List(acc)]>>))) IN
+       IF v = v THEN ForAcc(body, prod, q + 1, Append(acc, v), sc) ELSE acc
 
 EvalSeq(es, i, sc) == IF i > Len(es) THEN <<>> ELSE <<Eval(es[i], sc)>> \o EvalSeq(es, i + 1, sc)
 
@@ -265,8 +271,7 @@ Eval(t, sc) ==
          (LET doms == Doms(t.its, 1, sc) IN
           IF \E i \in 1..Len(doms) : ~doms[i].ok THEN Unspec
           ELSE IF RelaxEmpty /\ Len(doms) >= 2 /\ \E i \in 1..Len(doms) : doms[i].vals = <<>> THEN Unspec
-          ELSE LET prod == Product(doms, 1) IN
-               List([q \in 1..Len(prod) |-> Eval(t.body, Push(sc, Ctx(prod[q])))]))
+          ELSE List(ForAcc(t.body, Product(doms, 1), 1, <<>>, sc)))
     [] t.n \in {"some", "every"} ->
          (LET doms == Doms(t.its, 1, sc) IN
           IF \E i \in 1..Len(doms) : ~doms[i].ok THEN Unspec
